@@ -663,6 +663,7 @@ func runConc(args []string) {
 	}
 	counters(seed, cn, want, enc)
 	bigMulti(seed, cn, want, enc)
+	firstTouch(seed, cn, want, enc)
 	bv := rounds
 	if bv > 3 && os.Getenv("VERIF_TIER") != "thorough" {
 		bv = 3
